@@ -56,6 +56,11 @@ fn flow_rule(id: &str, res: &str, key: &str) -> Arc<flow::Rule> {
             r.threshold = 5.0;
             r.stat_interval_ms = 1500;
         }
+        // ... whose length is no multiple of the global bucket length nor of its own bucket count (accepted: one bucket; seed C10-f)
+        "p5o" => {
+            r.threshold = 5.0;
+            r.stat_interval_ms = 1700;
+        }
         "w9" | "w9p" | "w9c" => {
             r.warm_up_period_sec = if key == "w9p" { 3 } else { 2 };
             r.warm_up_cold_factor = if key == "w9c" { 4 } else { 3 };
@@ -79,6 +84,8 @@ fn flow_key(r: &flow::Rule) -> String {
         if r.stat_interval_ms == 2000 { "h4i".into() } else if r.max_queueing_time_ms == 1000 { "h4q".into() } else { "h4".into() }
     } else if r.stat_interval_ms == 1500 {
         "p5".into()
+    } else if r.stat_interval_ms == 1700 {
+        "p5o".into()
     } else if r.threshold < 0.0 {
         "xneg".into()
     } else {
@@ -109,7 +116,7 @@ fn hs_rule(id: &str, res: &str, key: &str) -> Arc<hs::Rule> {
             r.duration_in_sec = 1;
         }
         // QPS rules that differ from q2 in exactly one field: a per-value override, the burst, the parameter index
-        "q2o" | "q2b" | "q2i" => {
+        "q2o" | "q2b" | "q2i" | "q2k" => {
             r.metric_type = hs::MetricType::QPS;
             r.threshold = 2;
             r.duration_in_sec = 1;
@@ -121,6 +128,9 @@ fn hs_rule(id: &str, res: &str, key: &str) -> Arc<hs::Rule> {
             }
             if key == "q2i" {
                 r.param_index = 1;
+            }
+            if key == "q2k" {
+                r.param_key = "k".into();
             }
         }
         "c3" => {
@@ -148,6 +158,7 @@ fn hs_key(r: &hs::Rule) -> String {
         (hs::MetricType::QPS, 2) if !r.specific_items.is_empty() => "q2o".into(),
         (hs::MetricType::QPS, 2) if r.burst_count == 1 => "q2b".into(),
         (hs::MetricType::QPS, 2) if r.param_index == 1 => "q2i".into(),
+        (hs::MetricType::QPS, 2) if r.param_key == "k" => "q2k".into(),
         (hs::MetricType::QPS, t) => format!("q{}", t),
         (hs::MetricType::Concurrency, 8) => "xkey".into(),
         (hs::MetricType::Concurrency, t) => format!("c{}", t),
